@@ -11,3 +11,9 @@ claim("C03", "model_checking", "bounded-exhaustive enumeration of merge inputs; 
 claim("C16", "model_checking", "bounded-exhaustive enumeration of built/loaded/merged/re-merged segments; stats vs model",
       "CollectionStats of every field of every built, loaded, merged and merged-again segment of the scopes equals the model's definition; unknown fields are zero; CollectionStats.Merge adds component-wise on all ordered pairs of a measured value set.",
       TRUST, "DESIGN.md 5 C16", E1)
+claim("C04", "model_checking", "explicit reachability over segment states (New + merge trees to depth 2), every state loaded mem+file and observed",
+      "Bounded reachable set of segments (built from MIX x modes, STORED-S, DV-S, empty batch; every MERGE(k=2) output; depth-2 merges incl. zero-survivor outputs), de-duplicated by byte image; every state persists, loads from memory and from an io.ReaderAt-backed file without error/panic and all three observations agree with the model; returned byte count equals bytes written.",
+      TRUST + " File-backed loads use real temp files (tmpfs when available).", "DESIGN.md 5 C04", E1)
+claim("C11", "model_checking", "explicit reachability over segment states; footer/CRC invariants and byte-exact re-persist on every state",
+      "Same reachable set as C04; on every state: 44-byte footer present, trailing CRC-32/IEEE equals the CRC of all preceding bytes, footer fields equal the loaded segment's accessors, byte count exact, and Load(bytes).WriteTo reproduces the file byte for byte (memory- and file-backed, two rounds).",
+      TRUST, "DESIGN.md 5 C11", E1)
